@@ -186,7 +186,9 @@ func (s *Scheduler) run(now time.Time) {
 		if t.After(now) {
 			break
 		}
+		verifInvoke("begin", e)
 		go func(e *entry) {
+			defer verifInvoke("end", e)
 			if err := e.Invoke(); err != nil {
 				if errors.Is(err, errJobFinished) {
 					s.logger.Info("Workflow is already finished", "workflow", e.Job)
